@@ -124,7 +124,8 @@ def main():
     family = []
     if chk.tier == "quick":
         family = [("nuts", ("a", "z"), True), ("nuts", ("z", "a"), True), ("nuts", ("z", "a"), False), ("hmc", ("z", "a"), True),
-                  ("hmc", ("z", "a"), False), ("hmc", ("z", "m", "a"), True), ("nuts", ("z", "W"), True), ("hmc", ("W", "a"), False)]
+                  ("hmc", ("z", "a"), False), ("hmc", ("z", "m", "a"), True), ("nuts", ("z", "W"), True), ("hmc", ("W", "a"), False),
+                  ("nuts", ("z",), False), ("hmc", ("z",), True)]        # a block with a single flat coordinate (dense: a 1x1 matrix)
     else:
         for kind in ("nuts", "hmc"):
             for keys in (("a", "z"), ("z", "a"), ("z", "m", "a"), ("m", "a"), ("z",), ("z", "W"), ("W", "a")):
